@@ -97,22 +97,33 @@ def new_spec(kind, semantics='standard'):
 # an offline monitor first evaluates other data (its result is a function of the specification and the
 # data only).  The prehistory happens just before the first evaluate()/update() of the workload, is not part
 # of the recorded history, and is described in LAST_HISTORY so that a witness can mention it.
+# Struct inputs.  While a case is being judged (STRUCT is a random.Random), a few of the Mon objects are re-built,
+# just before their first evaluate()/update(), over the fields of ONE object-typed input variable
+# (rtverif/structs.py: `x >= 1` becomes `pp.position.x >= 1`) and all their data are folded into objects
+# accordingly.  The semantics is the same, so are the oracles.  Objects with io types or an interface-aware
+# semantics are left alone (two fields of one variable cannot have different io types); dense-time online
+# objects only when the workload asks for it (sd['structify'], all batches aligned).
+STRUCT = None
+STRUCT_P = 0.05
+
 HISTORY = None
 HISTORY_P = 0.15
 REPARSE = True          # C20 switches it off: explain() also reports on the assertions of earlier parse() calls
 LAST_HISTORY = []
 
 
-def begin_case(rng, reparse=True):
-    global HISTORY, REPARSE
+def begin_case(rng, reparse=True, struct=True):
+    global HISTORY, REPARSE, STRUCT
     HISTORY = rng if os.environ.get('RTVERIF_HISTORY', '1') != '0' else None
+    STRUCT = rng if (struct and os.environ.get('RTVERIF_STRUCT', '1') != '0') else None
     REPARSE = reparse
     del LAST_HISTORY[:]
 
 
 def end_case():
-    global HISTORY
+    global HISTORY, STRUCT
     HISTORY = None
+    STRUCT = None
 
 
 def _shuffled(h, vals):
@@ -130,6 +141,10 @@ def build_spec(kind, sd):
         s.declare_const(cn, ct, cv)
     for v, t in sorted(sd.get('io', {}).items()):
         s.set_var_io_type(v, t)
+    if sd.get('struct'):
+        mod, cls, var = sd['struct']
+        s.import_module(mod, cls)
+        s.declare_var(var, cls)
     if sd.get('unit') is not None:
         s.unit = sd['unit']
     if sd.get('period') is not None:
@@ -167,6 +182,58 @@ class Mon(object):
         if pastify:
             self.pastify()
         self._hist = hist
+        self._struct = None            # None: undecided; False: no; dict: mapping float variable -> field
+        self._parsed = parse
+        if sd.get('structify'):
+            self._struct_wanted = True
+        else:
+            self._struct_wanted = (STRUCT is not None and parse and kind not in ('ct', 'ct_on')
+                                   and not sd.get('io') and sd.get('semantics', 'standard') == 'standard'
+                                   and not sd.get('struct') and STRUCT.random() < STRUCT_P)
+        if kind == 'ct' and self._struct_wanted and not sd.get('structify'):
+            self._struct_wanted = 'offline-only'      # decided at the first call: evaluate() yes, update() no
+
+    def _structify(self, method, args):
+        """First evaluate()/update(): decide on the struct spelling and re-build the object over it."""
+        from rtverif import structs
+        self._struct = False
+        want = self._struct_wanted
+        if not want or (want == 'offline-only' and method != 'evaluate'):
+            return
+        try:
+            if method == 'evaluate' and len(args) == 1 and isinstance(args[0], dict):
+                names = [k for k in args[0] if k != 'time']
+            elif method == 'update' and len(args) == 2 and isinstance(args[0], (int, float)):
+                names = [k for k, _ in args[1]]
+            else:
+                names = [a[0] for a in args]
+                sig = dict((a[0], a[1]) for a in args)
+            mp = structs.mapping(names)
+            if not mp:
+                return
+            if method == 'evaluate' and not (len(args) == 1 and isinstance(args[0], dict)):
+                if not structs.aligned(sig, mp):
+                    return
+            spec = build_spec(self.kind, structs.sd(self.sd, mp, names))
+            spec.parse()
+            if self._pastified:
+                spec.pastify()
+        except Exception:
+            REC.counts['struct-rebuild-raised'] += 1
+            return
+        self.spec, self._struct, self._hist = spec, mp, None
+        REC.counts['struct-inputs:' + method] += 1
+        LAST_HISTORY.append('object #%d: inputs given as fields of one object-typed variable (%s)' % (
+            self.oid, ', '.join('%s=%s.%s' % (k, structs.VAR, f) for k, f in sorted(mp.items()))))
+
+    def _struct_args(self, method, args):
+        from rtverif import structs
+        mp = self._struct
+        if method == 'evaluate' and len(args) == 1 and isinstance(args[0], dict):
+            return (structs.dt_dataset(args[0], mp),)
+        if method == 'update' and len(args) == 2 and isinstance(args[0], (int, float)):
+            return (args[0], structs.dt_inputs(list(args[1]), mp))
+        return tuple(structs.ct_args([list(a) for a in args], mp))
 
     def _reparse(self):
         """History: the object parsed another formula in between - text A, then B, then A again (what an
@@ -316,6 +383,11 @@ class Mon(object):
             REC.counts['history-raised:neighbour'] += 1
 
     def _do(self, method, *args):
+        if method in ('evaluate', 'update') and self._parsed:
+            if self._struct is None:
+                self._structify(method, args)
+            if self._struct:
+                args = self._struct_args(method, args)
         if self._hist is not None and method in ('evaluate', 'update'):
             h, self._hist = self._hist, None
             if h.random() < 0.3:
